@@ -3,6 +3,7 @@ import ScVerif.C20.Mode
 import ScVerif.C20.EnterLeave
 import ScVerif.C20.Meter
 import ScVerif.C20.MeterConc
+import ScVerif.C20.ElConc
 import ScVerif.C20.Esc
 /-! Driver ops of the Mode (`mode.seq`), EnterLeave (`el.seq`) and Meter (`meter.seq`) models. -/
 namespace ScVerif.C20
@@ -102,6 +103,28 @@ def handle? (toks : List String) : Option String :=
         let s' := step acc.1 o
         (s', ("ok#" ++ showEvent s') :: acc.2)) (s0, ["init#" ++ showEvent s0])
       pure (";".intercalate outs.reverse)
+    | _ => none
+  | "el.conc" :: init :: sched :: progs =>
+    -- progs: one token per thread, ops separated by `;`; sched: `,`-separated events (`<n>` thread step)
+    match init.splitOn "/" with
+    | [e, l] => do
+      let e ← parseOptInt? e
+      let l ← parseOptInt? l
+      let progs ← progs.mapM (fun p => if p = "-" then some [] else (p.splitOn ";").mapM parseOp?)
+      let sched ← (if sched = "-" then some [] else (sched.splitOn ",").mapM (fun s =>
+        if s.startsWith "+" then (parseNat? (s.drop 1).toString).map Gau.Ev.tick else (parseNat? s).map Gau.Ev.step))
+      let c0 : Gau.Cfg Event Unit := ⟨⟨0, none, e, l⟩, 0, progs.map (fun p => Gau.Thread.ofCalls (p.map opCall))⟩
+      let c1 := c0.run sched
+      let c2 := c1.run (Gau.drainSched c1.threads)
+      let showRes : Gau.Res Event Unit → String
+        | .ok _ => "ok"
+        | .err _ => "err"
+        | .aborted => "Aborted"
+      let amp (xs : List String) : String := if xs.isEmpty then "-" else "&".intercalate xs
+      let showTh (th : Gau.Thread Event Unit) : String :=
+        (if th.cur.isSome || !th.todo.isEmpty then "unfinished:" else "") ++
+        amp (th.results.reverse.map showRes) ++ ":" ++ amp (th.results.map (fun _ => "rl"))
+      pure (showEvent c2.store ++ "#" ++ ";".intercalate (c2.threads.map showTh))
     | _ => none
   | _ => none
 
